@@ -1057,6 +1057,32 @@ def _carried_state(fn):
             zeros[st.targets[0].id] = st
     for lp in [st for st in fn.body if isinstance(st, ast.For) and isinstance(st.target, ast.Name)]:
         k = lp.target.id
+        # N26  the same march written from 1:  for k in range(1, N): E = f(c, x[k - 1], x[k]); S[rows, k] = E; c = E   is, with k -> k + 1,
+        #      for k in range(N - 1): E = f(c, x[k], x[k + 1]); S[rows, k + 1] = E; c = E      (an index shift: exact)
+        it = lp.iter
+        if isinstance(it, ast.Call) and ast.unparse(it.func) == "range" and len(it.args) == 2 and not it.keywords and \
+                isinstance(it.args[0], ast.Constant) and it.args[0].value == 1 and not isinstance(it.args[0].value, bool):
+            plain_store = any(isinstance(st, ast.Assign) and len(st.targets) == 1 and isinstance(st.targets[0], ast.Subscript) and
+                              isinstance(st.value, ast.Name) and isinstance(st.targets[0].slice, ast.Tuple) and len(st.targets[0].slice.elts) == 2 and
+                              isinstance(st.targets[0].slice.elts[1], ast.Name) and st.targets[0].slice.elts[1].id == k for st in lp.body)
+            carried = any(isinstance(st, ast.Assign) and len(st.targets) == 1 and isinstance(st.targets[0], ast.Name) and
+                          st.targets[0].id in zeros and isinstance(st.value, ast.Name) for st in lp.body)
+            rebinds_k = any(isinstance(n, ast.Name) and n.id == k and isinstance(n.ctx, ast.Store) for st in lp.body for n in ast.walk(st))
+            if plain_store and carried and not rebinds_k:
+                class Shift(ast.NodeTransformer):
+                    def visit_BinOp(self_, x):
+                        if isinstance(x.op, ast.Sub) and isinstance(x.left, ast.Name) and x.left.id == k and isinstance(x.right, ast.Constant) and \
+                                x.right.value == 1 and not isinstance(x.right.value, bool):
+                            return ast.copy_location(ast.Name(id=k, ctx=ast.Load()), x)               # (k + 1) - 1
+                        return self_.generic_visit(x)
+
+                    def visit_Name(self_, x):
+                        if x.id == k and isinstance(x.ctx, ast.Load):
+                            return ast.copy_location(ast.BinOp(left=ast.Name(id=k, ctx=ast.Load()), op=ast.Add(), right=ast.Constant(value=1)), x)
+                        return x
+                lp.body = [ast.fix_missing_locations(Shift().visit(st)) for st in lp.body]
+                lp.iter = ast.copy_location(ast.Call(func=it.func, args=[ast.BinOp(left=it.args[1], op=ast.Sub(), right=ast.Constant(value=1))], keywords=[]), it)
+                ast.fix_missing_locations(lp)
         stores = {}
         for st in lp.body:
             if isinstance(st, ast.Assign) and len(st.targets) == 1 and isinstance(st.targets[0], ast.Subscript) and isinstance(st.value, ast.Name) and \
